@@ -428,7 +428,10 @@ class Engine:
         for ti, tok in enumerate(self.case["tokens"]):
             own, foreign = self.holding(ti)
             if own + foreign > tok["total"]:
-                self.viol("C08", "capacity-exceeded", f"token {ti} (total {tok['total']}): own running jobs hold {own}, live foreign jobs {foreign} at {where}, step {self.step_no}")
+                # root cause set apart: the token file is named after the job, so two dependencies of
+                # one job on one file token are recorded as the amount of the last one only
+                twice = tok["kind"] == "file" and any(m.alive and sum(1 for t, _ in m.spec["toks"] if t == ti) > 1 for m in self.jobs.values())
+                self.viol("C08", "capacity-exceeded" + (":job-with-two-dependencies-on-the-token" if twice else ""), f"token {ti} (total {tok['total']}): own running jobs hold {own}, live foreign jobs {foreign} at {where}, step {self.step_no}")
             if tok["kind"] == "file":
                 disk = 0
                 for p in self.tokdir(ti).glob("*.token"):
